@@ -117,3 +117,26 @@ def finding_still_fails(k, repo='/repo'):
     if not w:
         return None
     return _replay_witness(w, repo)
+
+
+def fidelity(cfg, repo='/repo'):
+    """thorough tier, rewrite fidelity (DESIGN 3.7): the EXTRACTED text is proved equal to the mathematical spec by Verus;
+    here the REAL crate is compared with the same set/map semantics exhaustively over a small universe through its public
+    API.  A disagreement while all proofs pass means the extraction (or the oracle) misrepresents the code: exit 2, never a
+    property verdict.  returns (ok: bool|None, detail, cases)"""
+    exe = _build(repo)
+    if not exe:
+        return None, 'witness tool not built', 0
+    try:
+        p = subprocess.run([exe, 'search', 'all', '--universe', str(cfg.get('universe', 7)), '--max-seconds', str(cfg.get('max_seconds', 300))],
+                           stdout=subprocess.PIPE, stderr=subprocess.PIPE, text=True, timeout=cfg.get('max_seconds', 300) + 120)
+    except subprocess.TimeoutExpired:
+        return None, 'timeout', 0
+    line = p.stdout.strip().split('\n')[-1] if p.stdout.strip() else ''
+    try:
+        js = json.loads(line)
+    except ValueError:
+        return None, 'unparsable output', 0
+    if js.get('found') is False:
+        return True, 'real crate agrees with the set/map oracle on %d cases (universe %d)' % (js.get('cases', 0), cfg.get('universe', 7)), js.get('cases', 0)
+    return False, json.dumps(js)[:600], 0
